@@ -1,8 +1,128 @@
-(* C03 - property theorems only (work in progress: filled in as lemmas land). *)
+(* C03 - property theorems only.
+   "for all well-formed representations" = every value of the C struct that
+   satisfies the invariant of bitmap.c (wf: 1 <= ulongs_count <= ulongs_allocated,
+   ulongs_count <= 2^25-1, ulongs_count valid 64-bit words); [abs] maps a
+   representation to the finite-or-cofinite set (Base/BSet.v) it denotes.
+   Indexes are < 2^31-64 (IDXMAX) where stated. *)
 From Coq Require Import List NArith ZArith Bool Lia.
-From HV Require Import Gen.Tables Base.BSet Bitmap.BitmapModel Bitmap.BitmapSpec.
+From HV Require Import Gen.Tables Base.BSet Bitmap.BitmapModel Bitmap.BitmapSpec
+  Bitmap.BitmapBase Bitmap.BitmapOps Bitmap.BitmapQueries.
+Import ListNotations.
 Local Open Scope N_scope.
 
+(* the constants the model hardwires are those of the current source *)
 Theorem bits_per_long_is_64 : HWLOC_BITS_PER_LONG = BPL.
 Proof. reflexivity. Qed.
 Print Assumptions bits_per_long_is_64.
+
+(* non-vacuity: a 3-word infinite bitmap {1, 64.., } built by the model itself is well formed *)
+Definition ex_inf3 : repr := R 3 8 [2; 18446744073709551615; 0] true.
+Definition ex_fin2 : repr := R 2 8 [5; 1] false.
+Example ex_inf3_wf : wf ex_inf3.
+Proof. constructor; cbn; try (unfold MAXC; lia). repeat constructor. Qed.
+Example ex_fin2_wf : wf ex_fin2.
+Proof. constructor; cbn; try (unfold MAXC; lia). repeat constructor. Qed.
+Example ex_inf3_reachable : bm_clr_range (bm_set (bm_set_range bm_alloc 64 (-1)) 1) 128 191 = ex_inf3.
+Proof. vm_compute. reflexivity. Qed.
+
+(* membership is read word-wise through HWLOC_SUBBITMAP_READULONG *)
+Theorem mem_abs_words : forall r k, wf r -> mem k (abs r) = N.testbit (rd r (k / 64)) (k mod 64).
+Proof. exact mem_abs. Qed.
+Print Assumptions mem_abs_words.
+
+(* two representations denote the same set iff all their (extended) words agree *)
+Theorem abs_equal_iff_words : forall r1 r2, wf r1 -> wf r2 -> (abs r1 = abs r2 <-> forall i, rd r1 i = rd r2 i).
+Proof. exact abs_eq_iff. Qed.
+Print Assumptions abs_equal_iff_words.
+
+(* ---- (1)+(2): modifiers preserve wf and commute with abs ---- *)
+Theorem alloc_refines : wf bm_alloc /\ abs bm_alloc = bs_empty.
+Proof. exact alloc_wf. Qed.
+Theorem alloc_full_refines : wf bm_alloc_full /\ abs bm_alloc_full = bs_full.
+Proof. exact alloc_full_wf. Qed.
+Theorem or_refines : forall res r1 r2, wf res -> wf r1 -> wf r2 ->
+  wf (bm_or res r1 r2) /\ abs (bm_or res r1 r2) = bs_union (abs r1) (abs r2).
+Proof. exact bm_or_spec. Qed.
+Print Assumptions or_refines.
+Theorem and_refines : forall res r1 r2, wf res -> wf r1 -> wf r2 ->
+  wf (bm_and res r1 r2) /\ abs (bm_and res r1 r2) = bs_inter (abs r1) (abs r2).
+Proof. exact bm_and_spec. Qed.
+Print Assumptions and_refines.
+Theorem andnot_refines : forall res r1 r2, wf res -> wf r1 -> wf r2 ->
+  wf (bm_andnot res r1 r2) /\ abs (bm_andnot res r1 r2) = bs_diff (abs r1) (abs r2).
+Proof. exact bm_andnot_spec. Qed.
+Print Assumptions andnot_refines.
+Theorem xor_refines : forall res r1 r2, wf res -> wf r1 -> wf r2 ->
+  wf (bm_xor res r1 r2) /\ abs (bm_xor res r1 r2) = bs_xor (abs r1) (abs r2).
+Proof. exact bm_xor_spec. Qed.
+Print Assumptions xor_refines.
+Theorem not_refines : forall res r, wf res -> wf r ->
+  wf (bm_not res r) /\ abs (bm_not res r) = bs_compl (abs r).
+Proof. exact bm_not_spec. Qed.
+Print Assumptions not_refines.
+Theorem copy_refines : forall dst src, wf dst -> wf src -> wf (bm_copy dst src) /\ abs (bm_copy dst src) = abs src.
+Proof. exact bm_copy_spec. Qed.
+Print Assumptions copy_refines.
+Theorem dup_refines : forall old, wf old -> wf (bm_dup old) /\ abs (bm_dup old) = abs old /\ bm_dup old = old.
+Proof. exact bm_dup_spec. Qed.
+Print Assumptions dup_refines.
+Theorem zero_refines : forall r, wf r -> wf (bm_zero r) /\ abs (bm_zero r) = bs_empty.
+Proof. exact bm_zero_spec. Qed.
+Theorem fill_refines : forall r, wf r -> wf (bm_fill r) /\ abs (bm_fill r) = bs_full.
+Proof. exact bm_fill_spec. Qed.
+Print Assumptions fill_refines.
+Theorem set_refines : forall r cpu, wf r -> cpu < IDXMAX -> wf (bm_set r cpu) /\ abs (bm_set r cpu) = bs_add cpu (abs r).
+Proof. exact bm_set_spec. Qed.
+Print Assumptions set_refines.
+Theorem clr_refines : forall r cpu, wf r -> cpu < IDXMAX -> wf (bm_clr r cpu) /\ abs (bm_clr r cpu) = bs_remove cpu (abs r).
+Proof. exact bm_clr_spec. Qed.
+Print Assumptions clr_refines.
+Theorem only_refines : forall r cpu, wf r -> cpu < IDXMAX -> wf (bm_only r cpu) /\ abs (bm_only r cpu) = bs_single cpu.
+Proof. exact bm_only_spec. Qed.
+Print Assumptions only_refines.
+Theorem allbut_refines : forall r cpu, wf r -> cpu < IDXMAX ->
+  wf (bm_allbut r cpu) /\ abs (bm_allbut r cpu) = bs_compl (bs_single cpu).
+Proof. exact bm_allbut_spec. Qed.
+Print Assumptions allbut_refines.
+Theorem from_ulong_refines : forall r mask, wf r -> mask < U64 ->
+  wf (bm_from_ulong r mask) /\ abs (bm_from_ulong r mask) = bs_of_N mask.
+Proof. exact bm_from_ulong_spec. Qed.
+Print Assumptions from_ulong_refines.
+Theorem from_ith_ulong_refines : forall r i mask, wf r -> i < MAXC -> mask < U64 ->
+  wf (bm_from_ith_ulong r i mask) /\ abs (bm_from_ith_ulong r i mask) = sp_from_ith i mask.
+Proof. exact bm_from_ith_ulong_spec. Qed.
+Print Assumptions from_ith_ulong_refines.
+(* guard: nr >= 1 (nr = 0 is undefined behaviour in the C code as found, see known_findings.txt) *)
+Theorem from_ulongs_refines : forall r nr masks, wf r -> 1 <= nr -> nr <= MAXC ->
+  N.of_nat (length masks) = nr -> Forall (fun w => w < U64) masks ->
+  wf (bm_from_ulongs r nr masks) /\ abs (bm_from_ulongs r nr masks) = sp_from_ulongs masks.
+Proof. exact bm_from_ulongs_spec. Qed.
+Print Assumptions from_ulongs_refines.
+Example from_ulongs_nonvacuous : bm_from_ulongs ex_fin2 3 [1; 0; 7] = R 3 8 [1; 0; 7] false.
+Proof. vm_compute. reflexivity. Qed.
+Theorem set_ith_ulong_refines : forall r i mask, wf r -> i < MAXC -> mask < U64 ->
+  wf (bm_set_ith_ulong r i mask) /\ abs (bm_set_ith_ulong r i mask) = sp_set_ith (abs r) i mask.
+Proof. exact bm_set_ith_ulong_spec. Qed.
+Print Assumptions set_ith_ulong_refines.
+
+(* ---- (3): queries are functions of the abstract set ---- *)
+Theorem isset_spec : forall r cpu, wf r -> bm_isset r cpu = sp_isset (abs r) cpu.
+Proof. exact bm_isset_spec. Qed.
+Print Assumptions isset_spec.
+Theorem to_ith_ulong_spec : forall r i, wf r -> bm_to_ith_ulong r i = sp_word (abs r) i.
+Proof. exact bm_to_ith_ulong_spec. Qed.
+Theorem to_ulong_spec : forall r, wf r -> bm_to_ulong r = sp_word (abs r) 0.
+Proof. exact bm_to_ulong_spec. Qed.
+Theorem to_ulongs_spec : forall r nr, wf r -> bm_to_ulongs r nr = map (sp_word (abs r)) (range 0 nr).
+Proof. exact bm_to_ulongs_spec. Qed.
+Print Assumptions to_ulongs_spec.
+Theorem isequal_spec : forall r1 r2, wf r1 -> wf r2 -> bm_isequal r1 r2 = sp_isequal (abs r1) (abs r2).
+Proof. exact bm_isequal_spec. Qed.
+Print Assumptions isequal_spec.
+Theorem intersects_spec : forall r1 r2, wf r1 -> wf r2 -> bm_intersects r1 r2 = sp_intersects (abs r1) (abs r2).
+Proof. exact bm_intersects_spec. Qed.
+Print Assumptions intersects_spec.
+Theorem isincluded_spec : forall sub super, wf sub -> wf super ->
+  bm_isincluded sub super = sp_isincluded (abs sub) (abs super).
+Proof. exact bm_isincluded_spec. Qed.
+Print Assumptions isincluded_spec.
